@@ -69,7 +69,7 @@ Proof. apply forallb_forall. vm_compute. reflexivity. Qed.
    one enumeration oracle reverses), a history that grows the table past one
    bucket, deletes, pops and lists. *)
 Definition k (n : N) : bytes := [107%N; n; n; n; n; n; n; n; n; n; n; n; n].
-Definition env_a : env := {| e_hash := fun b => length b; e_perm := fun l => l; e_addr := fun n => n |}.
+Definition env_a : env := {| e_hash := fun b => List.length b; e_perm := fun l => l; e_addr := fun n => n |}.
 Definition env_b : env := {| e_hash := fun b => match b with _ :: x :: _ => N.to_nat x | _ => 0 end;
                              e_perm := @rev bytes; e_addr := fun n => 7 * n |}.
 Definition history : list op :=
